@@ -296,7 +296,7 @@ fn sub_builders(c: &mut Case) -> CaseResult {
 /// bulk builder histories: the append_array / append_slice / append_n / append_nulls / append_block families interleaved
 /// with single appends and finish / finish_cloned, against a row model.  Source arrays for `append_array` come from the
 /// layout realiser (sliced, padded, multi-buffer views, nulls over garbage).
-fn sub_bulk_builders(c: &mut Case) -> CaseResult {
+pub fn sub_bulk_builders(c: &mut Case) -> CaseResult {
     let which = c.tape.below(6);
     let nops = 1 + c.tape.below(24);
     let lay = Lay { fancy: true, dict_value_nulls: false, slice_chance: 128 };
